@@ -497,11 +497,13 @@ def build_rod(rng, C, t0, level=None):
     if level == "volume":
         rod._export_dict["volume_directors"] = bool(rng.random() < 0.5)
         rod._export_dict["stresses"] = bool(rng.random() < 0.5)
-        if rng.random() < 0.3:
+        if rng.random() < 0.3 and not rod._export_dict["stresses"]:
             rod._export_dict["ncells"] = int(rng.integers(1, 4))
         if cs.__class__.__name__ == "CircularCrossSection" and rng.random() < 0.5:
             rod._export_dict["surface_normals"] = True
-            rod._export_dict["ncells"] = int(rng.integers(1, nel + 1))      # at most as many cells as elements
+            # at most as many cells as elements; with stresses the exporter insists on cell boundaries at the element boundaries
+            # (it says so with an assertion), so the number of cells stays at its default there
+            rod._export_dict["ncells"] = nel if rod._export_dict["stresses"] else int(rng.integers(1, nel + 1))
     clamp = C["RigidConnection"](system.origin if at_origin else C_frame(C, system, r0, A0), rod, xi2=0)
     Fv = rng.normal(size=3) * _lu(rng, 0.2, 2)
     tip = C["Force"](Fv, rod, 1.0, name="tipforce")
